@@ -2,6 +2,7 @@ import SynKitModel.Canon
 import SynKitProofs.CanonLemmas
 import SynKitProofs.Match
 import SynKitProofs.NautyIRLemmas
+import SynKitProofs.NautyIRDepth
 /-!
 # C08 — graph canonicalisation is faithful and sound; the exact form is invariant
 
@@ -426,6 +427,127 @@ theorem fullStatement_ir : FullStatementOn IRCovered canonIR := by
   intro H hH cH hiso
   exact ⟨(ir_invariant G H hG hH cG cH hiso).2, canonIR_covEq G H hG hH cG cH hiso⟩
 
+/-! ### The exact back-end with a depth cap (`canonical_form(…, max_depth=d)`)
+
+`irSearchCapped` mirrors `_search` with its `depth` counter, the test `depth > max_depth` at the entry of
+every call, the returned flag that ends every enclosing loop, and `best` as it stands at that moment;
+`irCanonicalFormCappedWith` adds `canonical_form`'s `RuntimeError` when no leaf was reached.  The three
+theorems hold for EVERY label comparison `lt` and EVERY pruning test `pgt` (no hypothesis on either), in
+particular for Python's comparison of the rendered label strings, with or without pruning. -/
+
+/-- `irDepth G` is the depth (number of individualisations = length of the prefix) of the deepest leaf of
+the unpruned, uncapped search tree: no leaf is deeper, one leaf is that deep, and it is at most the number
+of nodes. -/
+theorem irDepth_spec (G : LGraph) (hG : G.WF) :
+    (∀ l ∈ irRootLeaves G, l.1.length ≤ irDepth G) ∧ (∃ l ∈ irRootLeaves G, l.1.length = irDepth G) ∧
+    irDepth G ≤ G.nodes.length :=
+  ⟨(irDepth_le_iff G _).1 (Nat.le_refl _), irMaxDepth_attained _ (irLeaves_root_ne_nil G hG.1), irDepth_le_nodes G⟩
+
+/-- **C08, exact back-end, `max_depth` (a): a cap at or above the deepest leaf is never reached.** If
+`d` is at least the depth of the deepest leaf of the search tree — in particular if `d` is at least the
+number of nodes — the capped search returns exactly what the uncapped search returns and
+`early_stop = False`: `canonical_form(G, max_depth=d)` is `canonical_form(G)`. -/
+theorem irCapped_full (lt : IRLabel → IRLabel → Bool) (pgt : List (List Val) → IRLabel → Bool) (prune : Bool)
+    (G : LGraph) (hG : G.WF) (d : Nat) :
+    (irDepth G ≤ d → irCanonCappedWith lt pgt prune G d = (irCanonWith lt pgt prune G, false)) ∧
+    (G.nodes.length ≤ d → irCanonCappedWith lt pgt prune G d = (irCanonWith lt pgt prune G, false)) ∧
+    (irDepth G ≤ d → irCanonicalFormCapped G d = .ok (canonIR G, irCanonOrder G, false)) := by
+  refine ⟨fun h => irCanonCappedWith_full lt pgt prune G hG.1 d h,
+    fun h => irCanonCappedWith_full lt pgt prune G hG.1 d (Nat.le_trans (irDepth_le_nodes G) h), ?_⟩
+  intro h
+  obtain ⟨pfx, e, _⟩ := irCanon_spec G hG
+  have hc := irCanonCappedWith_full IRLabel.lt irPartialGt true G hG.1 d h
+  unfold irCanonicalFormCapped irCanonicalFormCappedWith
+  rw [hc]
+  change irCanon G = _ at e
+  rw [show irCanonWith IRLabel.lt irPartialGt true G = irCanon G from rfl, e]
+  rfl
+
+/-- **C08, exact back-end, `max_depth` (b): an answer with `early_stop = False` is the full answer.**
+Whatever the cap, when the capped search returns without the flag, its `best` is the `best` of the uncapped
+search; hence a `canonical_form(G, max_depth=d)` that reports `early_stop = False` has returned the
+canonical graph and the permutation of `canonical_form(G)`.  No hypothesis on the graph. -/
+theorem irCapped_flag_sound (lt : IRLabel → IRLabel → Bool) (pgt : List (List Val) → IRLabel → Bool) (prune : Bool)
+    (G : LGraph) (d : Nat) :
+    (∀ r, irCanonCappedWith lt pgt prune G d = (r, false) → r = irCanonWith lt pgt prune G) ∧
+    (∀ cg o, irCanonicalFormCappedWith lt pgt prune G d = .ok (cg, o, false) →
+      (∃ L, irCanonWith lt pgt prune G = some (L, o)) ∧ cg = canonBy o G) ∧
+    (∀ cg o, irCanonicalFormCapped G d = .ok (cg, o, false) → o = irCanonOrder G ∧ cg = canonIR G) := by
+  have h1 : ∀ r, irCanonCappedWith lt pgt prune G d = (r, false) → r = irCanonWith lt pgt prune G :=
+    fun r h => irCanonCappedWith_flag_sound lt pgt prune G d r h
+  have h2 : ∀ (lt : IRLabel → IRLabel → Bool) (pgt : List (List Val) → IRLabel → Bool) (prune : Bool) cg o,
+      irCanonicalFormCappedWith lt pgt prune G d = .ok (cg, o, false) →
+      (∃ L, irCanonWith lt pgt prune G = some (L, o)) ∧ cg = canonBy o G := by
+    intro lt pgt prune cg o h
+    unfold irCanonicalFormCappedWith at h
+    cases hc : irCanonCappedWith lt pgt prune G d with
+    | mk r f =>
+      rw [hc] at h
+      cases r with
+      | none => simp at h
+      | some b =>
+        obtain ⟨L, o'⟩ := b
+        simp only [Except.ok.injEq, Prod.mk.injEq] at h
+        obtain ⟨rfl, rfl, rfl⟩ := h
+        exact ⟨⟨L, (irCanonCappedWith_flag_sound lt pgt prune G d _ hc).symm⟩, rfl⟩
+  refine ⟨h1, h2 lt pgt prune, ?_⟩
+  intro cg o h
+  obtain ⟨⟨L, e⟩, rfl⟩ := h2 IRLabel.lt irPartialGt true cg o h
+  have eo : irCanonOrder G = o := by unfold irCanonOrder irCanon; rw [e]
+  exact ⟨eo.symm, by unfold canonIR; rw [eo]⟩
+
+/-- **C08, exact back-end, `max_depth` (c): what a capped search returns is a leaf; when it raises.**
+On a well-formed graph every answer of `canonical_form(G, max_depth=d)` — flagged `early_stop` or not — is
+built from a genuine leaf of the search tree that lies at depth `≤ d`: `best` is that leaf's label and
+order, the order is a permutation of the node ids, and therefore (`canonBy_faithful`) the returned graph is
+still the input relabelled by a bijection onto `1..N` with every attribute preserved.  The `RuntimeError`
+("canonical form not found") arises exactly when the FIRST leaf of the tree in visiting order lies deeper
+than `d` — the descent to the first leaf is never pruned and the first call beyond the cap ends the whole
+search —, the flag is then up; in particular it arises when no leaf has depth `≤ d`.  (The converse of the
+last statement fails: see the example `irX` below, where a leaf of depth 1 exists and `max_depth=1` raises.) -/
+theorem irCapped_partial_is_leaf (lt : IRLabel → IRLabel → Bool) (pgt : List (List Val) → IRLabel → Bool) (prune : Bool)
+    (G : LGraph) (hG : G.WF) (d : Nat) :
+    (∀ cg o e, irCanonicalFormCappedWith lt pgt prune G d = .ok (cg, o, e) →
+      (∃ l ∈ irRootLeaves G, l.1.length ≤ d ∧ o = l.2 ∧
+        irCanonCappedWith lt pgt prune G d = (some (irLeafLabel G l, o), e)) ∧
+      o.Perm G.ids ∧ cg = canonBy o G ∧
+      IsRelabelling G cg (G.ids.map fun v => (v, pos o v)) ∧ cg.ids = List.range' 1 G.nodes.length) ∧
+    (irCanonicalFormCappedWith lt pgt prune G d = .error .notFound ↔
+      ∃ l rest, irRootLeaves G = l :: rest ∧ d < l.1.length) ∧
+    (irCanonicalFormCappedWith lt pgt prune G d = .error .notFound →
+      irCanonCappedWith lt pgt prune G d = (none, true)) ∧
+    ((∀ l ∈ irRootLeaves G, d < l.1.length) → irCanonicalFormCappedWith lt pgt prune G d = .error .notFound) := by
+  obtain ⟨hiff, hflag⟩ := irCanonCappedWith_none_iff lt pgt prune G hG.1 d
+  have herr : irCanonicalFormCappedWith lt pgt prune G d = .error .notFound ↔
+      (irCanonCappedWith lt pgt prune G d).1 = none := by
+    unfold irCanonicalFormCappedWith
+    cases hc : irCanonCappedWith lt pgt prune G d with
+    | mk r f =>
+      cases r with
+      | none => simp
+      | some b => obtain ⟨L, o⟩ := b; simp
+  refine ⟨?_, herr.trans hiff, fun h => hflag (herr.1 h), ?_⟩
+  · intro cg o e h
+    unfold irCanonicalFormCappedWith at h
+    cases hc : irCanonCappedWith lt pgt prune G d with
+    | mk r f =>
+      rw [hc] at h
+      cases r with
+      | none => simp at h
+      | some b =>
+        obtain ⟨L, o'⟩ := b
+        simp only [Except.ok.injEq, Prod.mk.injEq] at h
+        obtain ⟨rfl, rfl, rfl⟩ := h
+        obtain ⟨l, hl, hd, rfl, rfl⟩ := irCanonCappedWith_leaf lt pgt prune G d L o' (by rw [hc])
+        have hp := irLeaves_root_perm G hG.1 l hl
+        obtain ⟨hr, hids⟩ := canonBy_faithful l.2 G hG hp
+        exact ⟨⟨l, hl, hd, rfl, rfl⟩, hp, rfl, hr, hids⟩
+  · intro hall
+    apply (herr.trans hiff).2
+    cases hL : irRootLeaves G with
+    | nil => exact absurd hL (irLeaves_root_ne_nil G hG.1)
+    | cons l rest => exact ⟨l, rest, rfl, hall l (by rw [hL]; exact List.mem_cons_self)⟩
+
 /-! ### Non-vacuity (exact back-end) -/
 
 private def ir_a (e : String) (h : Int) : Attrs :=
@@ -458,5 +580,36 @@ example : (irRootLeaves irC4).length = 8 ∧ irCanonOrder irC4 = [1, 3, 2, 4] :=
 example : irRootLeaves irP = [([1], [1, 4, 3, 2]), ([4], [4, 1, 2, 3])] ∧ irCanonOrder irP = [1, 4, 3, 2] := by decide +kernel
 /-- the pruning test can fire: a prefix starting at the nitrogen against the best label of `irG` -/
 example : irPartialGt (irNodeSeg irG [9]) (irBuildLabel irG [5, 7, 3, 9]) = true := by decide +kernel
+
+/-! ### Non-vacuity (`max_depth`) -/
+
+/-- A cubic graph on 8 identical atoms whose refined partition is one cell holding several orbits: the
+leaves of its search tree lie at depths 1 and 2, and the first leaf (prefix `[1, 2]`) is a deep one. -/
+private def irX : LGraph :=
+  { nodes := [(1, ir_a "C" 0), (2, ir_a "C" 0), (3, ir_a "C" 0), (4, ir_a "C" 0), (5, ir_a "C" 0), (6, ir_a "C" 0),
+      (7, ir_a "C" 0), (8, ir_a "C" 0)]
+    edges := [(1, 4, ir_e 2), (1, 5, ir_e 2), (1, 8, ir_e 2), (2, 3, ir_e 2), (2, 4, ir_e 2), (2, 7, ir_e 2),
+      (3, 5, ir_e 2), (3, 6, ir_e 2), (4, 7, ir_e 2), (5, 8, ir_e 2), (6, 7, ir_e 2), (6, 8, ir_e 2)] }
+/-- The same graph with the names 1 and 2 exchanged: now the first leaf (prefix `[1]`) is a shallow one. -/
+private def irY : LGraph :=
+  { nodes := irX.nodes
+    edges := [(2, 4, ir_e 2), (2, 5, ir_e 2), (2, 8, ir_e 2), (1, 3, ir_e 2), (1, 4, ir_e 2), (1, 7, ir_e 2),
+      (3, 5, ir_e 2), (3, 6, ir_e 2), (4, 7, ir_e 2), (5, 8, ir_e 2), (6, 7, ir_e 2), (6, 8, ir_e 2)] }
+
+example : irX.WF ∧ irY.WF ∧ IRCovered irX ∧ IRCovered irY := by decide
+/-- (a) the 4-cycle: every leaf at depth 2; `max_depth=2` is the full search, `max_depth=1` reaches no leaf -/
+example : irDepth irC4 = 2 ∧ irCanonCapped irC4 2 = (irCanon irC4, false) ∧ irCanonCapped irC4 1 = (none, true) ∧
+    irCanonicalFormCapped irC4 1 = .error .notFound := by decide +kernel
+/-- leaves at different depths; the first one is deep -/
+example : (irRootLeaves irX).map (·.1) = [[1, 2], [1, 7], [2], [3, 7], [3, 8], [4, 5], [4, 8], [5], [6, 2], [6, 5], [7], [8]] ∧
+    irDepth irX = 2 := by decide +kernel
+/-- (c) the error case is decided by the FIRST leaf: `max_depth=1` raises on `irX` although leaves of depth 1 exist -/
+example : irCanonicalFormCapped irX 1 = .error .notFound ∧ irCanonCapped irX 1 = (none, true) ∧
+    (∃ l ∈ irRootLeaves irX, l.1.length ≤ 1) := by decide +kernel
+/-- (b), (c) an early stop WITH an answer: on `irY` `max_depth=1` visits the shallow first leaf, then stops at the
+first call of depth 2; the answer is that leaf and is flagged; `max_depth=0` raises; `max_depth=2` is the full search -/
+example : irCanonCapped irY 1 = (some (irLeafLabel irY ([1], [1, 6, 5, 2, 8, 4, 7, 3]), [1, 6, 5, 2, 8, 4, 7, 3]), true) ∧
+    ([1], [1, 6, 5, 2, 8, 4, 7, 3]) ∈ irRootLeaves irY ∧
+    irCanonCapped irY 0 = (none, true) ∧ irCanonCapped irY 2 = (irCanon irY, false) := by decide +kernel
 
 end SynKit.Canon
